@@ -412,6 +412,10 @@ func gen(seed uint64, tier string) {
 	affineCases(r, n/25, emit)
 	quadCases(r, n/25, emit)
 	knownCorpus(emit)
+	// phase 4 (quadrants.go): one-quadrant placements at tiny scales; lines inside the bounding box of a slanted hole / on an island
+	quadrantCorpus(emit)
+	quadrantCases(r, n/15, emit)
+	holeBoxCases(r, n/25, emit)
 }
 
 // scaleFor picks the coordinate scale of a case: mostly 1, otherwise a power of two.
